@@ -1,4 +1,5 @@
 import FrappyProofs.Lemmas.Logging
 import FrappyProofs.Lemmas.Rotate
 import FrappyProofs.Props.C01
+import FrappyProofs.Props.C02
 import FrappyProofs.Props.C20
